@@ -99,7 +99,7 @@ def kind_of(assert_code):
     return "other"
 
 
-def shard(col, module, mode, pop_bound, limit, pairs):
+def shard(col, module, mode, pop_bound, limit, pairs, part=0, nparts=1):
     import logging
     import shutil
     import tempfile
@@ -137,6 +137,8 @@ def shard(col, module, mode, pop_bound, limit, pairs):
         strategies = STRATEGIES if len(tests) > 20 or pop_bound > 1 else \
             [x for x in STRATEGIES if x[0] != "SUITE"]     # quick tier: SUITE = CASE + whole-test removal
         for gi, group in enumerate(groups):
+            if gi % nparts != part:
+                continue
             vs = ("unassert-head",) if gi in tripled else variants
             for (strategy, direction), variant in itertools.product(strategies, vs):
                 suite = pipe.suite(group)
@@ -233,7 +235,10 @@ def run(ctx):
     modules = MODULES_QUICK if ctx.quick else MODULES_THOROUGH
     jobs = []
     for m in modules:
-        jobs.append((m, "SIMPLE", 1 if ctx.quick else 2, 14 if ctx.quick else 60, 4 if ctx.quick else 12))
+        nparts = 4 if ctx.quick else 6        # the suites of one module are dealt over several workers
+        for part in range(nparts):
+            jobs.append((m, "SIMPLE", 1 if ctx.quick else 2, 14 if ctx.quick else 60, 4 if ctx.quick else 12,
+                         part, nparts))
         if not ctx.quick or m == "numeric":
             jobs.append((m, "MUTATION_ANALYSIS", 1, 3 if ctx.quick else 14, 0 if ctx.quick else 4))
     par.run_shards("props.c19_assertions_kept:shard", jobs, ctx.workers, ctx)
